@@ -195,6 +195,36 @@ func (s c03Scenario) inject(svc, meth, file string) map[string]Val {
 	return m
 }
 
+// runScenario walks a unit root under the scenario. What the scenario leaves open (how many fields the
+// request has, whether a field is one of the bound ones, …) is answered by default arms; when those answers
+// happen to describe a definition the generator refuses, the open answers are flipped one at a time, latest
+// first, until the generator accepts: the scenario fixes the route configuration, not the rest of the schema.
+func (c *Ctx) runScenario(fn *types.Func, s c03Scenario) *Run {
+	mk := func(dec map[string]int) *Run {
+		r := c.W.NewRun(dec, false)
+		r.InlineAll = true
+		r.FollowSlices = true
+		r.Fix = invariantFix
+		r.Inject = s.inject("file.Services@", "file.Services@.Methods@", "file")
+		r.Start(fn)
+		return r
+	}
+	r := mk(map[string]int{})
+	if r.Aborted == "" {
+		return r
+	}
+	tries := 0
+	for i := len(r.Used) - 1; i >= 0 && tries < 48; i-- {
+		for arm := 1; arm < r.Used[i].Arity && tries < 48; arm++ {
+			tries++
+			if r2 := mk(map[string]int{r.Used[i].Key: arm}); r2.Aborted == "" {
+				return r2
+			}
+		}
+	}
+	return r
+}
+
 // routeObs is what one generator publishes in one scenario.
 type routeObs struct {
 	Verbs, Paths []string // distinct observed values
@@ -212,12 +242,7 @@ func (c *Ctx) observeEmitted(pkg, suffix string, s c03Scenario) routeObs {
 	if ri == nil {
 		return routeObs{Err: "unit root not found"}
 	}
-	r := c.W.NewRun(map[string]int{}, false)
-	r.InlineAll = true
-	r.FollowSlices = true
-	r.Fix = invariantFix
-	r.Inject = s.inject("file.Services@", "file.Services@.Methods@", "file")
-	r.Start(ri.Fn)
+	r := c.runScenario(ri.Fn, s)
 	o := routeObs{Pos: c.P.Pos(c.P.Decls[ri.Fn].Pos())}
 	if r.Aborted != "" {
 		o.Err = "generation aborted: " + r.Aborted
@@ -620,10 +645,7 @@ func c03Placement(c *Ctx) {
 			if g.Pkg == pkgTSServer && agreed != "" {
 				// pathParams["x"] = decodeURIComponent(pathSegments[N] ?? "")
 				ri := c.c03Root(g.Pkg, g.Suffix)
-				run := c.W.NewRun(map[string]int{}, false)
-				run.InlineAll, run.FollowSlices, run.Fix = true, true, invariantFix
-				run.Inject = s.inject("file.Services@", "file.Services@.Methods@", "file")
-				run.Start(ri.Fn)
+				run := c.runScenario(ri.Fn, s)
 				segs := strings.Split(agreed, "/")
 				idxRe := regexp.MustCompile(`pathParams\["([^"]+)"\]\s*=.*pathSegments\[(\d+)\]`)
 				found := map[string]string{}
